@@ -36,6 +36,9 @@ class Prop:
     def shards(self, adapter: Any, cfg: Dict[str, Any], tier: str) -> int:
         return 1
 
+    def expand(self, task: Dict[str, Any]) -> List[Dict[str, Any]]:
+        return [task]
+
     def cost(self, adapter: Any, cfg: Dict[str, Any]) -> float:
         return 1.0
 
